@@ -1,4 +1,5 @@
 import ALock.Lemmas.RwLockWake
+import ALock.Lemmas.RwLockNrSingle
 import ALock.Atomic.Calls
 
 /-!
@@ -273,8 +274,8 @@ first re-reads the state word and, if the readers are gone, returns *dropping* i
 (which re-issues the notification), whereas the resumed thread has *consumed* it.  The two agree
 when nobody else is registered on `no_readers` — which is the case in every reachable state, because
 a waiter on `no_readers` holds the inner mutex (`write`) or the upgradable guard (`upgrade`); that
-uniqueness is stated here as the hypothesis `honly` and is **not** derived from reachability in this
-file, hence `_partial`.  (`upgradable_read_blocking` and the first stage of `write_blocking` park in
+uniqueness is the hypothesis `honly` of the `_partial` theorem and is discharged for every reachable
+state by `nr_single` (`Lemmas/RwLockNrSingle.lean`) in `C06_blocking_write_is_poll`.  (`upgradable_read_blocking` and the first stage of `write_blocking` park in
 the inner mutex's `AcquireSlow`: `C05_blocking_is_poll`.) -/
 
 /-- a thread parked in `RawRead` (blocking strategy) resumes -/
@@ -317,6 +318,17 @@ theorem C06_blocking_write_is_poll_partial (s : Sys) (fu : Fut) (t base : Nat)
       Ev.notifyOwners, Ev.notifyTasks]
     cases notifyK (Ev.addOf s.nr fu.id) 1 [] <;> simp [notifyO, notifyT]
   · rfl
+
+/-- **C06 (`write_blocking` / `upgrade`-style waiters on `no_readers` are covered).** In every
+reachable state the hypothesis `honly` holds (`nr_single`: a waiter on `no_readers` owns the slot
+of the inner mutex, and `WordInv.slot` says there is at most one owner), so the resume path of a
+parked writer equals the poll of its notified future. -/
+theorem C06_blocking_write_is_poll (ops : List Op) (fu : Fut) (t base : Nat)
+    (hn : Ev.isNotified (run {} ops).nr fu.id = true) :
+    resumeWaitReadersBlocking (run {} ops) fu t base = pollWaitReaders (run {} ops) fu t base := by
+  obtain ⟨e, he, ho, _⟩ := Ev.isNotified_iff.mp hn
+  exact C06_blocking_write_is_poll_partial _ fu t base hn
+    (nr_single ops fu.id (Ev.has_iff.mpr ⟨e, he, ho⟩))
 
 /-- without `honly` the two differ: the poll forwards the notification, the resumed thread has
 consumed it (harmless only because no second waiter on `no_readers` can exist) -/
